@@ -478,7 +478,8 @@ class RawAlgorithmsMixIn:
             raise NotImplementedError
         (D,P) = y_data.shape[:2]
 
-        if type(r) == int and r >= 0:
+        if isinstance(r, (int, numpy.integer)) and r >= 0:
+            r = int(r)
             if r == 0:
                 y_data[...] = 0.
                 y_data[0, ...] = 1.
@@ -532,7 +533,8 @@ class RawAlgorithmsMixIn:
         # print 'xbar_data=',xbar_data
         # print 'ybar_data=',ybar_data
 
-        if type(r) == int and r >= 0:
+        if isinstance(r, (int, numpy.integer)) and r >= 0:
+            r = int(r)
 
             if r > 0:
 
